@@ -89,6 +89,40 @@ Theorem C01_table_session_total : forall EH MAXF mss now ns TA TB,
     fs_all ns TA' = fs_all ns TB'.
 Proof. exact table_session_total. Qed.
 
+(** end to end (C02 + C08 + C01): two stores built by ANY histories of offers (any order, any
+    duplication, prefix deletions), then one session: it terminates, both documents are equal and
+    hold exactly the non-dominated offers of both histories *)
+Theorem C01_histories_then_session : forall EH MAXF mss now ns lA lB,
+  Forall wf_entry lA -> Forall wf_entry lB ->
+  (forall e, In e (lA ++ lB) -> e_ns e = ns /\ vsync EH MAXF now ns e MISSING = true) ->
+  consistent (lA ++ lB) ->
+  let TA := fs_puts EH empty_tables lA in
+  let TB := fs_puts EH empty_tables lB in
+  let A := fs_all ns TA in let B := fs_all ns TB in
+  exists TA' TB' ocA ocB tr,
+    session prefix_succ EH MAXF mss 2 (length A + length B + 3) now ns ns TA TB (mkOC 0 0) (mkOC 0 0)
+            (initial_message (fs_ops prefix_succ EH ns) TA) true [] = Some (TA', TB', ocA, ocB, tr) /\
+    fs_all ns TA' = fs_all ns TB' /\
+    (forall x, In x (fs_all ns TA') <-> in_reduce (lA ++ lB) x).
+Proof. exact histories_then_session. Qed.
+
+(** its hypotheses are satisfiable (a deletion marker, prefix-related keys, two authors, an
+    overwrite across the two histories) *)
+Example C01_histories_hypotheses_hold :
+  let lA := [mkE 1 2 [97] 9 0 0; mkE 1 2 [99] 5 1 8; mkE 1 3 [97] 5 1 8] in
+  let lB := [mkE 1 2 [97; 98] 5 1 8; mkE 1 2 [98] 5 1 8; mkE 1 2 [99] 6 1 9] in
+  Forall wf_entry lA /\ Forall wf_entry lB /\
+  (forall e, In e (lA ++ lB) -> e_ns e = 1 /\ vsync 0 600000000 100 1 e MISSING = true) /\
+  consistent (lA ++ lB).
+Proof.
+  cbv zeta. split; [|split; [|split]].
+  - repeat constructor; vm_compute; try discriminate; auto.
+  - repeat constructor; vm_compute; try discriminate; auto.
+  - intros e H. cbn in H. repeat (destruct H as [<-|H]; [split; reflexivity|]). destruct H.
+  - intros a b Ha Hb. cbn in Ha, Hb.
+    repeat (destruct Ha as [<-|Ha]); try destruct Ha; repeat (destruct Hb as [<-|Hb]); try destruct Hb; cbn; intros; try reflexivity; try discriminate; try congruence.
+Qed.
+
 (** the fact about the split that convergence rests on: the sub-ranges cover the range *)
 Theorem C01_split_covers_range : forall k, 2 <= k -> forall S x y, ssorted S -> (2 <= length (rng S x y))%nat ->
   forall z, range_contains x y z = true ->
@@ -109,5 +143,7 @@ Proof. vm_compute. repeat split; auto. Qed.
 Print Assumptions C01_session_reaches_join.
 Print Assumptions C01_session_total.
 Print Assumptions C01_table_session_total.
+Print Assumptions C01_histories_then_session.
+Print Assumptions C01_histories_hypotheses_hold.
 Print Assumptions C01_split_covers_range.
 Print Assumptions C01_session_example.
